@@ -264,7 +264,7 @@ Definition copy_rewrite_body (rd : reader) (out : bytes) (size : nat) (bigger : 
    theorems are about (flags read from the AST by genconsts); otherwise it refuses, and every
    theorem about Put is re-opened *)
 Definition copy_rewrite (rd : reader) (out : bytes) (size : nat) (bigger : bool) : prog bool :=
-  if copy_commit_ok && copy_truncates_on_failure && copy_removes_on_close_failure
+  if copy_commit_ok && copy_truncates_on_failure && copy_removes_on_close_failure && copy_closes_ok
   then copy_rewrite_body rd out size bigger else Ret false.
 
 Definition copy_file_prog (rd : reader) (out : bytes) (size : nat) : prog bool :=
@@ -320,6 +320,11 @@ Definition put_prog_body (id : bytes) (rd : reader) (tm : Z) : prog put_result :
 
 Definition put_prog (id : bytes) (rd : reader) (tm : Z) : prog put_result :=
   if put_order_ok then put_prog_body id rd tm else Ret PutErrEarly.
+
+(* Cache.PutBytes(id, data) is Put(id, bytes.NewReader(data)) (flag read from the AST): a source that
+   cannot misbehave; chunks is how io.CopyN cuts data into Write calls *)
+Definition put_bytes_prog (id : bytes) (chunks : list bytes) (tm : Z) : prog put_result :=
+  if put_bytes_via_put then put_prog id (honest_reader chunks) tm else Ret PutErrEarly.
 
 (* ---- sequential cache API *)
 Definition get (fs : files) (id : bytes) := snd (run_seq (get_prog id) fs).
